@@ -460,7 +460,7 @@ def exit_class(rc):
     return "error"
 
 
-def run_programs(exe, programs, timeout=10, jobs=JOBS, args=(), cwd_links=None, env=None):
+def run_programs(exe, programs, timeout=10, jobs=JOBS, args=(), cwd_links=None, env=None, collect=None):
     """run each program text (str) or (text, extra_args); returns list of (stdout, exit_class, stderr_tail).
     Each worker has its own directory inside the scratch dir."""
     from concurrent.futures import ThreadPoolExecutor
@@ -505,11 +505,20 @@ def run_programs(exe, programs, timeout=10, jobs=JOBS, args=(), cwd_links=None, 
                     os.makedirs(os.path.dirname(fp), exist_ok=True)
                     with open(fp, "w") as f:
                         f.write(content)
+            if collect:
+                cp = os.path.join(d, collect)
+                if os.path.exists(cp):
+                    os.remove(cp)
             try:
                 r = subprocess.run([exe, "t.cb"] + extra, cwd=d, stdout=subprocess.PIPE, stderr=subprocess.PIPE,
                                    timeout=timeout, env=e)
-                return (r.stdout.decode("utf-8", "replace"), exit_class(r.returncode),
-                        r.stderr.decode("utf-8", "replace")[-400:])
+                res = (r.stdout.decode("utf-8", "replace"), exit_class(r.returncode),
+                       r.stderr.decode("utf-8", "replace")[-400:])
+                if collect:
+                    cp = os.path.join(d, collect)
+                    side = open(cp, errors="replace").read() if os.path.exists(cp) else ""
+                    res = res + (side,)
+                return res
             except subprocess.TimeoutExpired as ex_:
                 if os.environ.get("CB_VERIF_LOG_TIMEOUTS"):
                     with open(os.environ["CB_VERIF_LOG_TIMEOUTS"], "a") as lf:
